@@ -57,6 +57,10 @@ func main() {
 		os.Exit(2)
 	}
 	id := os.Args[1]
+	if id == "__lfs_agent" {
+		agentMain()
+		return
+	}
 	fs := flag.NewFlagSet("check", flag.ExitOnError)
 	tier := fs.String("tier", os.Getenv("VERIF_TIER"), "quick or thorough")
 	replay := fs.String("replay", "", "replay file")
